@@ -579,6 +579,7 @@ package rueidis
 //@   modifies *
 //@   ensures [C07 a-hit-has-not-expired] v.typ != 0 ==> v.getExpireAt() > now.UnixMilli()
 //@   assert [C07 a-new-flight-expires-at-start-plus-ttl] at setExpireAt: arg1 == now.Add(ttl).UnixMilli()
+//@   assert [C10 a-new-flight-never-reuses-an-entry-that-is-still-linked-and-accounted] at setExpireAt: ele == nil || !inlist(ele)
 
 //@ func lru.Flights
 //@   option opaque-pkgs=github.com/redis/rueidis/internal/cmds
@@ -592,6 +593,7 @@ package rueidis
 //@   assert [C10 in-flight-entries-are-never-evicted] at Remove: e.val.typ != 0 && arg1 == ele
 //@   assert [C10 only-completed-entries-are-unregistered] at delete: e.val.typ != 0
 //@   loop 0: repeat-only-if [C10 the-walk-moves-to-the-successor-taken-before-any-removal] ele == returned(Next)
+//@   loop 0: repeat-only-if [C10 every-completed-entry-met-by-the-walk-is-evicted] e.val.typ == 0 || !inlist(before(Next, arg0))
 //@   loop 0: invariant [C10] ele == nil || inlist(ele)
 
 // the reader stamps the server's expiry on the reply before committing it: a PTTL reply of 0 or more (0 included: the key
